@@ -1,6 +1,9 @@
 From Coq Require Import Extraction ExtrOcamlBasic.
-Require Import NixV.Base.Prelude NixV.Gen.GenTables NixV.Units.UnitsModel.
+Require Import NixV.Base.Prelude NixV.Gen.GenTables NixV.Units.UnitsModel NixV.Base.F64 NixV.Units.UnitsRoutes.
 Extraction Language OCaml.
 Extraction "model_C18.ml" splitUnit isSIUnit isAtomicSIUnit isCompoundSIUnit isScalable getSIScaling
   deblankString unitSanitizer stoi print_unit power_text power_val parts_ok spec_parse spec_atomic spec_issi split_seps
-  spec_scaling spec_scalable spec_scaling_raw spec_scalable_raw PREFIXES UNITS POWER_SUFFIXES.
+  spec_scaling spec_scalable spec_scaling_raw spec_scalable_raw PREFIXES UNITS POWER_SUFFIXES
+  isScalableVec isSetAtSamePos spec_set_same splitCompoundUnit spec_split_compound convertToSeconds_d convertToSeconds_i
+  convertToKelvin_d convertToKelvin_i nameCheck nameSanitizer checkEntityName checkEntityType checkEmptyString
+  checkEntityNameAndType.
